@@ -17,3 +17,135 @@ fn c09_angular_total() {
     let _ = normalize_symmetric(s);
     let _ = normalize_positive(s);
 }
+
+// ---- contracts of the sexagesimal / ISO-6709 conversions (harness route: assume = requires, assert = ensures)
+// Postconditions use comparisons against constants only: every extra symbolic f64 multiplication or
+// division in a postcondition costs CBMC minutes (measured), so the "to rounding" clauses are bracketed.
+
+//@h {"id":"C19.K.angular.dms_to_dd","props":["C19"],"tier":"quick","kind":"complete","timeout":600,"text":"dms_to_dd: requires |d|<1000, m<60, 0<=s<60; ensures result has the sign of d (positive for d=0), lies in [|d|, |d|+1], is >= m/60 - 1e-12 above |d| and < (m+1)/60 + 1e-12 -- includes the zero-degree clause"}
+#[kani::proof]
+fn c19_angular_dms_to_dd() {
+    let (d, m, s): (i32, u16, f64) = (kani::any(), kani::any(), kani::any());
+    kani::assume(d > -1000 && d < 1000 && m < 60 && s >= 0.0 && s < 60.0);
+    let r = dms_to_dd(d, m, s);
+    let ad = (d as f64).abs();
+    if d < 0 {
+        assert!(r <= -ad && r >= -ad - 1.0, "C19.K.angular.dms.sign: negative degrees give a value in [d-1, d]");
+    } else {
+        assert!(r >= ad && r <= ad + 1.0, "C19.K.angular.dms.sign: non-negative degrees (incl. zero) give a value in [d, d+1]");
+    }
+    // minutes bracket, m/60 is computed on an integer -> table-free constant comparison per m is too wide; use exact sixtieths
+    let lo = ad + (m as f64) / 60.0;
+    assert!(r.abs() >= lo - 1e-9 && r.abs() <= lo + 1.0 / 60.0 + 1e-9, "C19.K.angular.dms.minutes: minutes are honoured, also for zero degrees");
+    kani::cover!(d == 0 && m == 30, "zero degrees reachable");
+    kani::cover!(d < 0, "negative degrees reachable");
+}
+
+//@h {"id":"C19.K.angular.dm_to_dd","props":["C19"],"tier":"quick","kind":"complete","timeout":600,"text":"dm_to_dd: requires |d|<1000, 0<=m<60; ensures sign of d (positive for d=0), value in [|d|,|d|+1], and for whole minutes k<=m<k+1 the value is within [|d|+k/60, |d|+(k+1)/60]"}
+#[kani::proof]
+fn c19_angular_dm_to_dd() {
+    let (d, m): (i32, f64) = (kani::any(), kani::any());
+    kani::assume(d > -1000 && d < 1000 && m >= 0.0 && m < 60.0);
+    let r = dm_to_dd(d, m);
+    let ad = (d as f64).abs();
+    if d < 0 {
+        assert!(r <= -ad && r >= -ad - 1.0, "C19.K.angular.dm.sign: negative degrees give a value in [d-1, d]");
+    } else {
+        assert!(r >= ad && r <= ad + 1.0, "C19.K.angular.dm.sign: non-negative degrees (incl. zero) give a value in [d, d+1]");
+    }
+    let k = m.floor();
+    assert!(r.abs() >= ad + k / 60.0 - 1e-9 && r.abs() <= ad + (k + 1.0) / 60.0 + 1e-9, "C19.K.angular.dm.minutes: minutes are honoured, also for zero degrees");
+    kani::cover!(d == 0 && m > 30.0, "zero degrees reachable");
+}
+
+//@h {"id":"C19.K.angular.dd_to_iso_dm","props":["C19"],"tier":"quick","kind":"complete","timeout":600,"text":"dd_to_iso_dm on [-720,720]: DDDMM.mmm layout: |r| in [100*floor|x|, 100*floor|x| + 60] (60 only by rounding), sign preserved incl. |x|<1 and -0.0"}
+#[kani::proof]
+fn c19_angular_dd_to_iso_dm() {
+    let dd: f64 = kani::any();
+    kani::assume(dd >= -720.0 && dd <= 720.0);
+    let r = dd_to_iso_dm(dd);
+    let d = dd.abs().floor();
+    assert!(r.abs() >= d * 100.0 && r.abs() <= d * 100.0 + 60.0, "C19.K.angular.iso_dm.layout: hundreds carry whole degrees, rest is minutes in [0,60]");
+    assert!(r.is_sign_negative() == dd.is_sign_negative() || r == 0.0, "C19.K.angular.iso_dm.sign: sign preserved");
+    if dd.abs() - d >= 0.5 {
+        assert!(r.abs() - d * 100.0 >= 30.0 - 1e-9, "C19.K.angular.iso_dm.minutes: half a degree is at least 30 minutes");
+    } else {
+        assert!(r.abs() - d * 100.0 <= 30.0 + 1e-9, "C19.K.angular.iso_dm.minutes: less than half a degree is at most 30 minutes");
+    }
+}
+
+//@h {"id":"C19.K.angular.dd_to_iso_dms","props":["C19"],"tier":"quick","kind":"complete","timeout":600,"text":"dd_to_iso_dms on [-720,720]: DDDMMSS.sss layout: |r| in [10000*floor|x|, 10000*floor|x| + 6000], sign preserved"}
+#[kani::proof]
+fn c19_angular_dd_to_iso_dms() {
+    let dd: f64 = kani::any();
+    kani::assume(dd >= -720.0 && dd <= 720.0);
+    let r = dd_to_iso_dms(dd);
+    let d = dd.abs().floor();
+    assert!(r.abs() >= d * 10000.0 && r.abs() <= d * 10000.0 + 6000.0, "C19.K.angular.iso_dms.layout: ten-thousands carry whole degrees");
+    assert!(r.is_sign_negative() == dd.is_sign_negative() || r == 0.0, "C19.K.angular.iso_dms.sign: sign preserved");
+    if dd.abs() - d >= 0.5 {
+        assert!(r.abs() - d * 10000.0 >= 3000.0 - 1e-6, "C19.K.angular.iso_dms.minutes: half a degree is at least 30 minutes");
+    } else {
+        assert!(r.abs() - d * 10000.0 <= 3000.0 + 1e-6, "C19.K.angular.iso_dms.minutes: less than half a degree is at most 30 minutes");
+    }
+}
+
+//@h {"id":"C19.K.angular.iso_dm_to_dd","props":["C19"],"tier":"quick","kind":"complete","timeout":600,"text":"iso_dm_to_dd for well-formed DDDMM.mmm (|x|<=72000, minutes field < 60): |r| in [D, D+1] with D the hundreds, half-degree split at 30 minutes, sign preserved"}
+#[kani::proof]
+fn c19_angular_iso_dm_to_dd() {
+    let x: f64 = kani::any();
+    kani::assume(x >= -72000.0 && x <= 72000.0);
+    let whole = x.abs() as u32;
+    let d = whole / 100;
+    let minutes = x.abs() - (d * 100) as f64;
+    kani::assume(minutes < 60.0);
+    let r = iso_dm_to_dd(x);
+    assert!(r.abs() >= d as f64 && r.abs() <= d as f64 + 1.0, "C19.K.angular.iso_dm_dec.layout: degrees are the hundreds");
+    assert!(r.is_sign_negative() == x.is_sign_negative() || r == 0.0, "C19.K.angular.iso_dm_dec.sign: sign preserved");
+    if minutes >= 30.0 {
+        assert!(r.abs() - d as f64 >= 0.5 - 1e-9, "C19.K.angular.iso_dm_dec.minutes: 30 minutes are at least half a degree");
+    } else {
+        assert!(r.abs() - d as f64 <= 0.5 + 1e-9, "C19.K.angular.iso_dm_dec.minutes: less than 30 minutes are at most half a degree");
+    }
+}
+
+//@h {"id":"C19.K.angular.iso_dms_to_dd","props":["C19"],"tier":"quick","kind":"complete","timeout":600,"text":"iso_dms_to_dd for well-formed DDDMMSS.sss: |r| in [D, D+1] with D the ten-thousands, half-degree split at 3000, sign preserved"}
+#[kani::proof]
+fn c19_angular_iso_dms_to_dd() {
+    let x: f64 = kani::any();
+    kani::assume(x >= -7200000.0 && x <= 7200000.0);
+    let whole = x.abs() as u32;
+    let d = whole / 10000;
+    let ms = whole - d * 10000;
+    let m = ms / 100;
+    let sec = x.abs() - (d * 10000 + m * 100) as f64;
+    kani::assume(m < 60 && sec < 60.0);
+    let r = iso_dms_to_dd(x);
+    assert!(r.abs() >= d as f64 && r.abs() <= d as f64 + 1.0, "C19.K.angular.iso_dms_dec.layout: degrees are the ten-thousands");
+    assert!(r.is_sign_negative() == x.is_sign_negative() || r == 0.0, "C19.K.angular.iso_dms_dec.sign: sign preserved");
+    if m >= 30 {
+        assert!(r.abs() - d as f64 >= 0.5 - 1e-9, "C19.K.angular.iso_dms_dec.minutes: 30 minutes are at least half a degree");
+    } else {
+        assert!(r.abs() - d as f64 <= 0.5 + 1e-9, "C19.K.angular.iso_dms_dec.minutes: less than 30 minutes are at most half a degree");
+    }
+}
+
+//@h {"id":"C19.K.angular.normalize","props":["C19"],"tier":"thorough","kind":"complete","timeout":900,"text":"normalize_symmetric returns a value in [-pi, pi], normalize_positive in [0, 2pi], for every finite angle with |a| <= 1e6"}
+#[kani::proof]
+fn c19_angular_normalize() {
+    use std::f64::consts::PI;
+    let a: f64 = kani::any();
+    kani::assume(a >= -1e6 && a <= 1e6);
+    let p = normalize_positive(a);
+    assert!(p >= 0.0 && p <= 2.0 * PI, "C19.K.angular.normalize_positive: result in [0, 2pi]");
+    let s = normalize_symmetric(a);
+    assert!(s >= -PI - 1e-12 && s <= PI + 1e-12, "C19.K.angular.normalize_symmetric: result in [-pi, pi]");
+}
+
+//@h {"id":"C19.K.angular.canary","props":["C19","C09"],"tier":"quick","kind":"canary","timeout":120,"text":"canary: dm_to_dd(1, m) == 1 for m in (1,59) is false and must FAIL"}
+#[kani::proof]
+fn c19_angular_canary() {
+    let m: f64 = kani::any();
+    kani::assume(m > 1.0 && m < 59.0);
+    assert!(dm_to_dd(1, m) == 1.0, "canary: minutes are ignored");
+}
